@@ -191,7 +191,17 @@ class TableUse:
     bound: Optional[str]  # local name bound to the result, if any
 
 
+_TU_CACHE: Dict[int, List["TableUse"]] = {}
+
+
 def table_uses(repo: Repo, fi: FuncInfo) -> List[TableUse]:
+    k = id(fi.node)
+    if k not in _TU_CACHE:
+        _TU_CACHE[k] = _table_uses(repo, fi)
+    return _TU_CACHE[k]
+
+
+def _table_uses(repo: Repo, fi: FuncInfo) -> List[TableUse]:
     """
     Every `<table>.get(...)`-style call in the function, including calls on a
     loop variable that iterates a tuple of table definitions.
